@@ -21,5 +21,5 @@ git apply seed.patch
 mkdir -p /verif/seeded/$NAME
 cp seed.patch /verif/seeded/$NAME/patch.diff
 cp demo.sh notes.md /verif/seeded/$NAME/ 2>/dev/null
-for f in $(git status --porcelain | grep '^??' | awk '{print $2}' | grep -E 'seed|demo' | grep -v -E '\.log$|target|seed.patch|demo.sh|notes.md'); do mkdir -p /verif/seeded/$NAME/$(dirname $f); cp -r $f /verif/seeded/$NAME/$f; done
+for f in $(git status --porcelain | grep '^??' | awk '{print $2}' | grep -v -E '\.log$|target|seed.patch|demo.sh|notes.md'); do mkdir -p /verif/seeded/$NAME/$(dirname $f); cp -r $f /verif/seeded/$NAME/$f; done
 echo "with=$W without=$WO"
